@@ -648,6 +648,8 @@ pub fn scenario(name: &str, params: &Value) -> Scenario {
                 sys.apply(Ev::Start(OpSpec::Publish(p)));
                 sys.apply(Ev::Start(OpSpec::Subscribe(SubscribeSpec::simple("frag/#"))));
                 sys.apply(Ev::Start(OpSpec::Ping));
+                // (a second caller pings while the first PINGREQ is unanswered: one PINGREQ each)
+                sys.apply(Ev::Start(OpSpec::Ping));
                 // an acknowledgement the client has to write in between
                 sys.apply(Ev::Deliver(inbound(2, false, 5, &[], "in")));
                 sys.apply(Ev::Start(OpSpec::Disconnect(DisconnectSpec {
